@@ -49,6 +49,7 @@ fn desig(r: &mut Rng, tag: Option<u32>) -> Vec<u8> {
     d
 }
 
+const OFFSETS_EXTRA: &[i32] = &[65536, -65536, 131072, 32768, -32768, 256, -256, 16777216, 65535, -65537];
 const OFFSETS: &[i32] = &[0, 1, -1, 59, -59, 3600, -3600, 7200, -7200, 1800, 5400, 12600, 19800, 20700, 34200, 36000, 39600, 43200, 45900, 46800, 50400, -18000, -14400, -21600, -25200, -28800, -34200, -36000, -39600, -43200, 86400, -86400, 93599, -89999];
 
 fn offset(r: &mut Rng) -> i32 {
@@ -56,6 +57,7 @@ fn offset(r: &mut Rng) -> i32 {
         0 => i32::MAX,
         1 => i32::MIN + 1,
         2 => r.range(-100_000, 100_000) as i32,
+        3 => *r.pick(OFFSETS_EXTRA),
         _ => *r.pick(OFFSETS),
     }
 }
@@ -71,6 +73,23 @@ fn day_spec_any(r: &mut Rng) -> DaySpec {
 }
 
 fn day_spec(r: &mut Rng) -> DaySpec {
+    if r.chance(1, 6) {
+        // the days around the end of February and the ends of the ranges
+        return match r.below(12) {
+            0 => DaySpec::J1(59),
+            1 => DaySpec::J1(60),
+            2 => DaySpec::J1(365),
+            3 => DaySpec::J1(1),
+            4 => DaySpec::J0(0),
+            5 => DaySpec::J0(58),
+            6 => DaySpec::J0(59),
+            7 => DaySpec::J0(60),
+            8 => DaySpec::J0(365),
+            9 => DaySpec::M(2, 5, r.below(7) as u8),
+            10 => DaySpec::M(2, 4, r.below(7) as u8),
+            _ => DaySpec::M(12, 5, r.below(7) as u8),
+        };
+    }
     match r.below(10) {
         0..=5 => DaySpec::M(1 + r.below(12) as u8, 1 + r.below(5) as u8, r.below(7) as u8),
         6 | 7 => DaySpec::J1(1 + r.below(365) as u16),
@@ -242,6 +261,10 @@ pub fn gen_zone(r: &mut Rng, o: ZoneOpts) -> ZoneSpec {
             }
         }
     }
+    if r.chance(1, 10) && trans.len() > ntypes {
+        // equal counts (timecnt == typecnt): what a decoder that mixes two counts up cannot notice otherwise
+        trans.truncate(ntypes);
+    }
     if o.allow_invalid && trans.len() >= 2 && r.chance(1, 80) {
         let k = r.usize(trans.len() - 1);
         trans[k + 1].0 = trans[k].0;
@@ -254,7 +277,7 @@ pub fn gen_zone(r: &mut Rng, o: ZoneOpts) -> ZoneSpec {
     // leap seconds
     let mut leaps: Vec<(i64, i32)> = Vec::new();
     if r.chance(1, 4) {
-        let n = 1 + r.usize(if o.allow_huge { 30 } else { 6 });
+        let n = 1 + r.usize(if o.allow_huge { 300 } else { 6 });
         let mut t = if o.i32_times { r.range(0, 500_000_000) } else { r.range(0, 2_000_000_000) };
         let mut c: i32 = 0;
         for _ in 0..n {
@@ -270,9 +293,21 @@ pub fn gen_zone(r: &mut Rng, o: ZoneOpts) -> ZoneSpec {
             };
         }
         if o.allow_invalid && r.chance(1, 20) {
-            match r.below(3) {
+            match r.below(6) {
                 0 => leaps[0].1 = 2,
                 1 => leaps[0].0 = -5,
+                2 => leaps[0].1 = 0,
+                3 => {
+                    if leaps.len() > 1 {
+                        leaps[1].0 = leaps[0].0;
+                    }
+                }
+                4 => {
+                    if leaps.len() > 1 {
+                        let k = r.usize(leaps.len() - 1);
+                        leaps[k + 1].1 = leaps[k].1;
+                    }
+                }
                 _ => {
                     if leaps.len() > 1 {
                         leaps[1].0 = leaps[0].0 + 100;
@@ -735,8 +770,8 @@ pub fn gen_c15(seed: u64) -> Scenario {
     // aliases of one of them: same low bits / same time of day / same place in the 400-year cycle
     // (what a table with truncated tags or a "same day" memo would confuse)
     let base = instants[r.usize(instants.len())];
-    for d in [1i64 << 32, -(1i64 << 32), 1 << 16, 1 << 20, 86400, -86400, 86400 * 365, 86400 * 366, 12_622_780_800, -12_622_780_800, 1 << 40, 604_800] {
-        if r.chance(1, 3) {
+    for d in [1i64 << 32, -(1i64 << 32), 1 << 16, 1 << 20, 86400, -86400, 86400 * 365, 86400 * 366, 12_622_780_800, -12_622_780_800, 1 << 40, 604_800, 1 << 4, 1 << 6, 1 << 8, 1 << 10, 1 << 12, 1 << 14, 1 << 24, 1 << 48, 3 << 8, 5 << 12, 7 << 16, 3600, 1800, 900, 60] {
+        if r.chance(1, 4) {
             instants.push(base.saturating_add(d));
         }
     }
@@ -751,6 +786,13 @@ pub fn gen_c15(seed: u64) -> Scenario {
     fields.push(Fields { y: fy, mo: 3, d: 8 + r.below(7) as u8, h: 2, mi: 30, s: 0, ns: 0 });
     fields.push(Fields { y: fy, mo: 11, d: 1 + r.below(7) as u8, h: 1, mi: 30, s: 0, ns: 0 });
     fields.push(Fields { y: fy, mo: 10, d: 1 + r.below(7) as u8, h: 2, mi: 30, s: 0, ns: 0 });
+    // the same local date-time in years that collide in a table indexed by (year mod 2^k) or by the 400-year cycle
+    let fbase = fields[r.usize(fields.len())];
+    for dy in [8i32, 16, 64, 256, 400, 4, 28] {
+        if r.chance(1, 3) {
+            fields.push(Fields { y: fbase.y.saturating_add(dy), ..fbase });
+        }
+    }
 
     let nclients = 2 + r.usize(3);
     let mut total = 0;
